@@ -6,8 +6,12 @@
 package decision
 
 // C01 (decision service): the accepted status is written only when no pipeline error is recorded;
-// otherwise the pipeline error is returned and nothing is written to the response.
+// otherwise the pipeline error is returned and no status is written (the error handler answers).
+// C12: a `WWW-Authenticate` challenge recorded by the www_authenticate error handler (it puts it into
+// the context's response headers and records ErrAuthentication) has to reach the client with the 401:
+// when the pipeline error is handed back, the challenge must have been put on the response.
 //@ func (*requestContext).Finalize
-//@   props C01
-//@   ensures old(r.RequestContext.err) != nil ==> ret0 == old(r.RequestContext.err) && wh.n == old(wh.n) && hset.n == old(hset.n) && setcookie.n == old(setcookie.n)
+//@   props C01 C12
+//@   ensures old(r.RequestContext.err) != nil ==> ret0 == old(r.RequestContext.err) && wh.n == old(wh.n)
 //@   ensures old(r.RequestContext.err) == nil ==> ret0 == nil && wh.n == old(wh.n) + 1 && wh.arg0[old(wh.n)] == old(r.rw) && wh.arg1[old(wh.n)] == old(r.responseCode)
+//@   ensures old(r.RequestContext.err) != nil && headerGet(old(r.RequestContext.upstreamHeaders), "WWW-Authenticate", old(hver)) != "" ==> hset.n > old(hset.n)
